@@ -16,8 +16,9 @@
    length/d.
    REFUTED.  The edge-count clause is false of the faithful float model for short, unevenly parametrised cubics:
    (0,0)(0,0)(0,0)(1.5,0) with d = 0.5 flattens to its bare chord although length/(2d) = 1.5 (C17_edge_count_refuted).
-   NOT covered by a theorem: the edge-count clause for other curves (a curve at least d long gives MORE than length/(2d) edges: depends on
-   the look-up table built from the quadrature being monotone and accurate, C04/C16 unproved clauses) -- searched only;
+   EDGE COUNT for gentle cubics (Proofs/C16space.v): a cubic whose speed stays within a factor 2, at least d long, is cut into more than length/(2d)
+   edges whenever 2.01 + 5e-4 L <= d (consecutive cuts are at most d + M/len + 4e-4 L of exact arc length apart).
+   NOT covered by a theorem: the edge-count clause for other curves (cusps, retracted handles, quadratics -- whose flatten uses the uniform sampler) -- searched only;
    "the original is not modified": the model is purely functional and cannot express mutation -- the search compares
    repr(receiver) before and after and checks object identity for lines. *)
 
@@ -25,6 +26,7 @@ From Coq Require Import PrimFloat.
 From Coq Require Import ZArith List Bool Reals Lra Permutation Sorted.
 From BZ Require Import Base.Ops Gen.Point Gen.Line Gen.Quad Gen.Cubic Gen.Sample Hand.Sample Hand.Shoelace Proofs.C16 Proofs.C17 Proofs.Bridge2.
 Import ListNotations.
+From BZ Require Proofs.C04 Proofs.C10flat Proofs.C16space.
 From BZ Require Gen.PathOps Proofs.Bridge5.
 Open Scope R_scope.
 
@@ -63,6 +65,18 @@ Proof. exact @Bridge5.Path_flatten_fuel_gen. Qed.
 Theorem C17_path_flatten_gen :
   forall (T : Type) (O : Ops T), lit_ok O -> forall (cap : nat) (segs : list (segment T * option (segment T))) (closed : bool) (degree : T) (fuel : nat), eqb O degree (zero O) = false -> Forall (Bridge5.flatten_ok O cap fuel degree) segs -> path_flatten O cap segs closed degree = res_of (PathOps.Path_flatten O fuel (segs, closed) degree).
 Proof. exact @Bridge5.path_flatten_gen. Qed.
+Theorem C17_gentle_cubic_flatten_fine :
+  forall (s : seg4 R) (m M : R), 0 < m -> (forall u : R, 0 <= u <= 1 -> m <= C04.cubic_speed s u <= M) -> M <= 2 * m -> forall (cap : nat) (d : R) (es : list edge), 0 < d -> ~ Cubic_length ROps s < d -> Cubic_flatten ROps cap s d = Ok es -> exists ts : list R, param_list ts /\ map fst es = C10flat.chords_of (Cubic_pointAtTime ROps s) ts /\ S (length es) = length ts /\ C10flat.fine_partition_01 (C10flat.cubic_arclen s) (d + M * (1 / Cubic_length ROps s) + 4 / 10 ^ 4 * C10flat.cubic_arclen s 0 1) ts.
+Proof. exact @C16space.gentle_cubic_flatten_fine. Qed.
+Theorem C17_gentle_cubic_edge_count :
+  forall (s : seg4 R) (m M : R), 0 < m -> (forall u : R, 0 <= u <= 1 -> m <= C04.cubic_speed s u <= M) -> M <= 2 * m -> forall (cap : nat) (d : R) (es : list edge), 0 < d -> ~ Cubic_length ROps s < d -> Cubic_flatten ROps cap s d = Ok es -> C10flat.cubic_arclen s 0 1 <= INR (length es) * (d + M * (1 / Cubic_length ROps s) + 4 / 10 ^ 4 * C10flat.cubic_arclen s 0 1) /\ ((1 + 2 / 10 ^ 4) * (d + M * (1 / Cubic_length ROps s) + 4 / 10 ^ 4 * C10flat.cubic_arclen s 0 1) < 2 * d -> Cubic_length ROps s / (2 * d) < INR (length es)) /\ (201 / 100 + 5 / 10 ^ 4 * C10flat.cubic_arclen s 0 1 <= d -> Cubic_length ROps s / (2 * d) < INR (length es)).
+Proof. exact @C16space.gentle_cubic_edge_count. Qed.
+Theorem C17_arch_gentle :
+  forall k : R, 0 < k -> forall u : R, 0 <= u <= 1 -> 3 * k / 2 <= C04.cubic_speed (C10flat.arch k) u <= 3 * k.
+Proof. exact @C16space.arch_gentle. Qed.
+Theorem C17_arch100_flatten_gentle :
+  exists es : list edge, Cubic_flatten ROps 256 (C10flat.arch 100) 8 = Ok es /\ Rabs (Cubic_area ROps (C10flat.arch 100) - C10.sum_line_areas (map fst es)) <= 10 * 200 /\ Cubic_length ROps (C10flat.arch 100) / (2 * 8) < INR (length es).
+Proof. exact @C16space.arch100_flatten_gentle. Qed.
 
 Print Assumptions C17_curve_flatten_spec.
 Print Assumptions C17_quad_flatten_uniform.
@@ -75,3 +89,7 @@ Print Assumptions C17_flatten_nonvacuous.
 Print Assumptions C17_seg_flatten_is_generated.
 Print Assumptions C17_Path_flatten_fuel_gen.
 Print Assumptions C17_path_flatten_gen.
+Print Assumptions C17_gentle_cubic_flatten_fine.
+Print Assumptions C17_gentle_cubic_edge_count.
+Print Assumptions C17_arch_gentle.
+Print Assumptions C17_arch100_flatten_gentle.
